@@ -100,8 +100,16 @@ func descN(v ssa.Value, depth int) string {
 	case *ssa.BinOp:
 		return "(" + descN(x.X, d) + " " + x.Op.String() + " " + descN(x.Y, d) + ")"
 	case *ssa.Call:
+		if s, ok := leafResult(x, 0, d); ok {
+			return s
+		}
 		return callDesc(&x.Call, d)
 	case *ssa.Extract:
+		if call, ok := x.Tuple.(*ssa.Call); ok {
+			if s, ok := leafResult(call, x.Index, d); ok {
+				return s
+			}
+		}
 		if sel, ok := x.Tuple.(*ssa.Select); ok && x.Index >= 2 {
 			// the value received by an arm of a select is named by the arm's channel, not
 			// by the arm's position among the cases (which has no meaning)
@@ -322,6 +330,86 @@ func allocSource(a *ssa.Alloc) ssa.Value {
 		return nil
 	}
 	return nil
+}
+
+// leafResult: the result of a call to a tiny private straight-line helper of the module (one
+// block, no calls into the module, no goroutines or channel operations) reads as the expression
+// the helper returns, in the caller's terms: `q.pop()` written as `x := q.items[0]; q.items =
+// q.items[1:]; return x` reads `q.items[0]`.  Factoring an expression out into such a helper
+// (a pop, a header decoder, a predicate) then leaves every description as it was.
+var leafInlineDepth int
+
+func leafResult(call *ssa.Call, idx int, d int) (string, bool) {
+	sc := call.Call.StaticCallee()
+	if sc == nil || call.Call.IsInvoke() || !leafHelper(sc) || leafInlineDepth >= 2 {
+		return "", false
+	}
+	var ret *ssa.Return
+	for _, in := range sc.Blocks[0].Instrs {
+		if r, ok := in.(*ssa.Return); ok {
+			ret = r
+		}
+	}
+	if ret == nil || idx >= len(ret.Results) {
+		return "", false
+	}
+	ns := map[*ssa.Parameter]string{}
+	for k, v := range descSubst {
+		ns[k] = v
+	}
+	for j, par := range sc.Params {
+		if j < len(call.Call.Args) {
+			ns[par] = descN(call.Call.Args[j], d)
+		}
+	}
+	saved := descSubst
+	descSubst = ns
+	leafInlineDepth++
+	out := descN(resolveSpill(ret.Results[idx], ret), d)
+	leafInlineDepth--
+	descSubst = saved
+	return out, true
+}
+
+var leafHelperCache = map[*ssa.Function]bool{}
+
+func leafHelper(f *ssa.Function) bool {
+	if v, ok := leafHelperCache[f]; ok {
+		return v
+	}
+	ok := f.Blocks != nil && len(f.Blocks) == 1 && f.Parent() == nil && lowerName(f.Name()) && len(f.Blocks[0].Instrs) <= 30 && f.Signature.Results().Len() >= 1
+	if ok {
+		if _, in := Rel(pkgPathOf(f)); !in {
+			ok = false
+		}
+	}
+	if ok {
+		for _, in := range f.Blocks[0].Instrs {
+			switch x := in.(type) {
+			case *ssa.Go, *ssa.Defer, *ssa.Send, *ssa.Select, *ssa.MakeClosure, *ssa.Panic, *ssa.RunDefers:
+				ok = false
+			case *ssa.UnOp:
+				if x.Op == token.ARROW {
+					ok = false
+				}
+			case *ssa.Call:
+				if x.Call.IsInvoke() {
+					ok = false
+				} else if _, isB := x.Call.Value.(*ssa.Builtin); !isB {
+					callee := x.Call.StaticCallee()
+					if callee == nil {
+						ok = false
+					} else if _, in := Rel(pkgPathOf(callee)); in {
+						ok = false
+					} else if callee.Pkg != nil && callee.Pkg.Pkg.Path() == "sync" {
+						ok = false
+					}
+				}
+			}
+		}
+	}
+	leafHelperCache[f] = ok
+	return ok
 }
 
 func callDesc(c *ssa.CallCommon, d int) string {
